@@ -63,7 +63,7 @@ theorem C09_balanced_market_planned_present_is_charged {α B : Type} [Field α] 
     (p0 : α) (rest : List α) (sm2 : B)
     (h2 : (if desiredAt env v c0 ≤ ops.soc sm1 then
         bisect ops env.eps st.cs v.minChargingPower ts (samePrice env sorted st.sortedIdx c0 s0).1
-          (ops.soc st.sim) (desiredAt env v c0) bisectFuel 0 st.cs.maxPower false pw1 sm1
+          (ops.soc st.sim) (desiredAt env v c0) bisectFuel 0 (st.cs.maxPower - pymin st.cs.currentPower 0) false pw1 sm1
       else pure (pw1, sm1)) = .ok (p0 :: rest, sm2))
     (hp0 : p0 ≠ 0) (bat' : B) (avg : α)
     (hl : ops.load st.bat none none (some p0) = .ok (bat', avg)) :
